@@ -645,6 +645,103 @@ type loopSpec struct {
 	counter types.Object
 }
 
+// autoInvariant: `lo <= i && i <= hi` for `for i := lo; i < hi; i++` when the body does not assign i
+// and hi is a constant, an identifier or len(identifier) that the loop does not assign.
+func autoInvariant(ls *loopSpec) []Clause {
+	fs, ok := ls.stmt.(*ast.ForStmt)
+	tr := []Clause{{Text: "true", Expr: ast.NewIdent("true"), Line: "automatic"}}
+	if !ok || fs.Init == nil || fs.Cond == nil || fs.Post == nil {
+		return tr
+	}
+	as, ok := fs.Init.(*ast.AssignStmt)
+	if !ok || as.Tok != token.DEFINE || len(as.Lhs) != 1 || len(as.Rhs) != 1 {
+		return tr
+	}
+	iv, ok := as.Lhs[0].(*ast.Ident)
+	if !ok {
+		return tr
+	}
+	inc, ok := fs.Post.(*ast.IncDecStmt)
+	if !ok || inc.Tok != token.INC {
+		return tr
+	}
+	if id, ok := inc.X.(*ast.Ident); !ok || id.Name != iv.Name {
+		return tr
+	}
+	cond, ok := fs.Cond.(*ast.BinaryExpr)
+	if !ok || (cond.Op != token.LSS && cond.Op != token.LEQ) {
+		return tr
+	}
+	if id, ok := cond.X.(*ast.Ident); !ok || id.Name != iv.Name {
+		return tr
+	}
+	// names assigned in the body
+	assigned := map[string]bool{}
+	ast.Inspect(fs.Body, func(n ast.Node) bool {
+		switch s := n.(type) {
+		case *ast.AssignStmt:
+			for _, l := range s.Lhs {
+				if id, ok := l.(*ast.Ident); ok {
+					assigned[id.Name] = true
+				}
+			}
+		case *ast.IncDecStmt:
+			if id, ok := s.X.(*ast.Ident); ok {
+				assigned[id.Name] = true
+			}
+		case *ast.UnaryExpr:
+			if s.Op == token.AND {
+				if id, ok := s.X.(*ast.Ident); ok {
+					assigned[id.Name] = true
+				}
+			}
+		}
+		return true
+	})
+	if assigned[iv.Name] {
+		return tr
+	}
+	hiOK := false
+	switch h := cond.Y.(type) {
+	case *ast.BasicLit:
+		hiOK = true
+	case *ast.Ident:
+		hiOK = !assigned[h.Name]
+	case *ast.CallExpr:
+		if f, ok := h.Fun.(*ast.Ident); ok && f.Name == "len" && len(h.Args) == 1 {
+			if a, ok := h.Args[0].(*ast.Ident); ok {
+				hiOK = !assigned[a.Name]
+			}
+		}
+	}
+	switch as.Rhs[0].(type) {
+	case *ast.BasicLit, *ast.Ident:
+	default:
+		hiOK = false
+	}
+	if lo, ok := as.Rhs[0].(*ast.Ident); ok && assigned[lo.Name] {
+		hiOK = false
+	}
+	if !hiOK {
+		return tr
+	}
+	var hi ast.Expr = cond.Y
+	if cond.Op == token.LEQ {
+		hi = &ast.BinaryExpr{X: cond.Y, Op: token.ADD, Y: &ast.BasicLit{Kind: token.INT, Value: "1"}}
+	}
+	// the invariant only holds when the loop is entered with lo <= hi; otherwise i stays at lo
+	inv := &ast.BinaryExpr{
+		X:  &ast.BinaryExpr{X: as.Rhs[0], Op: token.LEQ, Y: ast.NewIdent(iv.Name)},
+		Op: token.LAND,
+		Y: &ast.BinaryExpr{
+			X:  &ast.BinaryExpr{X: ast.NewIdent(iv.Name), Op: token.LEQ, Y: hi},
+			Op: token.LOR,
+			Y:  &ast.BinaryExpr{X: ast.NewIdent(iv.Name), Op: token.EQL, Y: as.Rhs[0]},
+		},
+	}
+	return []Clause{{Text: "automatic counter bounds", Expr: inv, Line: "automatic"}}
+}
+
 func (x *Exec) forStmt(st *State, n *ast.ForStmt) []outcome {
 	if n.Init != nil {
 		outs := x.execStmt(st, n.Init)
@@ -845,6 +942,13 @@ func (x *Exec) unrollLoop(st *State, ls *loopSpec) []outcome {
 				continue
 			}
 			if !c.IsTrue() {
+				if iter == 0 && len(cur) == 1 && x.specDepth == 0 && x.inGlobalInit == 0 {
+					// a loop without an invariant whose trip count is not a constant: analysed with the
+					// trivial invariant (plus the bounds of a canonical counter), as a deductive verifier
+					// does; whatever the loop computes is unknown after it
+					x.trusted["loop without invariant at "+x.pos(ls.stmt)+": analysed with the trivial invariant (its effect is unknown to the proof)"] = true
+					return append(outs, x.invariantLoop(st, ls, autoInvariant(ls))...)
+				}
 				unsupported("%s: loop %s has no invariant and its condition is not decided by constant propagation (iteration %d): %s", x.pos(ls.stmt), ls.id, iter, c)
 			}
 			if ls.pre != nil {
@@ -1070,6 +1174,12 @@ func (x *Exec) havocValueLike(e *Env, v Value, name string, t types.Type) Value 
 
 func (x *Exec) invariantLoop(st *State, ls *loopSpec, inv []Clause) []outcome {
 	fr := x.top()
+	if fr.c == nil {
+		// a function executed in place without a contract of its own
+		fc := *fr
+		fc.c = &Contract{}
+		fr = &fc
+	}
 	info := fr.pkg.TypesInfo
 	evalInv := func(s *State, obl string) {
 		ce := x.localEnv(s)
@@ -1280,7 +1390,17 @@ func (x *Exec) dryRunHavoc(h *State, ls *loopSpec) {
 		for k, v := range o.st.vars {
 			if hv, isHash := v.(HashV); isHash {
 				if w, ok := start.vars[k]; ok && !sameValue(hv, w) {
-					unsupported("%s: loop %s leaves the hash object %s in a different state at the end of its body", x.pos(ls.stmt), ls.id, k.Name())
+					// the loop writes to the hash: at the loop head the bytes written so far are unknown
+					// (one chunk of unknown content and length replaces everything after the key)
+					if cur, ok := h.vars[k].(HashV); ok {
+						nh := cur
+						nh.Chunks = append([]hchunk{}, cur.Chunks[:cur.NKey]...)
+						es := e.R().sortOf(cur.elem())
+						ln := x.fresh(k.Name()+".written", IntS)
+						h.assume(Le(IntC(0), ln))
+						nh.Chunks = append(nh.Chunks, hchunk{arr: x.fresh(k.Name()+".data", ArrS(es)), off: IntC(0), len: ln})
+						h.vars[k] = nh
+					}
 				}
 			}
 		}
